@@ -137,7 +137,7 @@ def streamTo (B : Nat) : Nat → Wr → List UInt8 → Out
 
 /-- `nn, err, clean = streamTo(i, w); for n += nn; nn != 0 && clean && err == nil; n += nn { nn, err, clean = streamTo(i, w) }` -/
 def chunkLoop (B : Nat) : Nat → Nat → Wr → List UInt8 → Out
-  | 0, _, w, _ => ⟨0, .rd "fuel", false, [], w⟩
+  | 0, acc, w, _ => ⟨acc, .rd "fuel", false, [], w⟩
   | f + 1, acc, w, bs =>
     let o := streamTo B f w bs
     if o.n ≠ 0 ∧ o.clean = true ∧ o.err = .none then chunkLoop B f (acc + o.n) o.w o.rest
